@@ -1,4 +1,4 @@
-from armulator.armv6.bits_ops import substring, chain
+from armulator.armv6.bits_ops import substring, chain, add as bits_add, sub as bits_sub
 from armulator.armv6.opcodes.opcode import Opcode
 from armulator.armv6.shift import ror, shift
 
@@ -19,14 +19,14 @@ class LdrRegisterArm(Opcode):
         if processor.condition_passed():
             offset = shift(processor.registers.get(self.m), 32, self.shift_t, self.shift_n, processor.registers.cpsr.c)
             n = processor.registers.get(self.n)
-            offset_addr = (n + offset) if self.add else (n - offset)
+            offset_addr = bits_add(n, offset, 32) if self.add else bits_sub(n, offset, 32)
             address = offset_addr if self.index else n
             data = processor.mem_u_get(address, 4)
             if self.wback:
                 processor.registers.set(self.n, offset_addr)
             if self.t == 15:
                 if substring(address, 1, 0) == 0b00:
-                    processor.load_write_pc(address)
+                    processor.load_write_pc(data)
                 else:
                     print('unpredictable')
             elif processor.unaligned_support() or substring(address, 1, 0) == 0b00:
